@@ -1052,6 +1052,35 @@ def fam_multix(rnd, i):
     return steps
 
 
+def fam_closereuse(rnd, i, k=None):
+    """A Watcher with a large recursive tree is closed while new Watchers are made: the kernel hands the number of the
+    closed notification descriptor to one of them, and each instance numbers its watches from 1 - anything the closed
+    Watcher still does with its old descriptor *number* (or the old watch numbers) hits the newcomer. The newcomers
+    watch a directory of their own; each is judged against the ground truth of the shadow instance
+    (C14: another Watcher's life cycle does not change this one's stream; C13/C06: Close is the end of all activity)."""
+    k = k or rnd.choice([600, 1500, 3000])
+    steps = [{"s": "recurse", "recurse": True}, fs("mkdir", ("d1",)), fs("create", ("d1", "n1")), fs("mkdir", ("r",)),
+             {"s": "rep", "k": k, "pat": [fs("mkdir", ("r", "x%"))]}]
+    steps += [new("w1", rnd.choice([0, 4])), call("w1", "add", ("r",), "rel", recurse=True)]
+    if rnd.random() < 0.5:
+        steps += [fs("mkdir", ("r", "late")), drain("w1")]
+    steps.append(call("w1", "close", t="t2", **{"async": True, "nowait": True}))     # the next steps race with this Close
+    late = ["w2", "w3", "w4"][:rnd.choice([2, 3])]         # (few: the sandbox-wide limit of inotify instances is shared by everything that runs)
+    for w in late:
+        steps += [dict(new(w, rnd.choice([0, 8, 64])), nowait=True), call(w, "add", ("d1",), "rel")]
+        if rnd.random() < 0.5:
+            steps.append(call(w, "add", ("d1", "n1"), "rel"))
+    steps.append({"s": "join", "t": "t2"})
+    steps += [fs("create", ("d1", "y1")), fs("chmod", ("d1", "n1")), fs("write", ("d1", "n1")), fs("unlink", ("d1", "y1"))]
+    for w in late:
+        steps += [drain(w), call(w, "watchlist"), obs(w)]
+    steps += [drain("w1"), obs("w1")]
+    for w in late:
+        steps += [call(w, "close"), drain(w), obs(w)]
+    steps.append({"s": "recurse", "recurse": False})
+    return steps
+
+
 def fam_recurse(rnd, i):
     """Recursive watches: trees whose sibling names share string prefixes (dir1/dir10, sub/sub2), directories
     created one level at a time (each followed by receipt of its Create), inner renames, re-creation under a
@@ -1827,7 +1856,7 @@ FAMS = {
     "cycle": fam_cycle, "newclose": fam_newclose, "overflow": fam_overflow, "moves": fam_moves, "multi": fam_multi,
     "absorb": fam_absorb, "withops": fam_withops, "repoint": fam_repoint, "stall": fam_stall, "spell": fam_spell,
     "endwatch": fam_endwatch, "paced": fam_paced, "ovfstall": fam_ovfstall, "ovflate": fam_ovflate,
-    "parmoves": fam_parmoves, "multix": fam_multix, "recurse": fam_recurse, "cwd": fam_cwd, "readfault": fam_readfault, "dselfskip": fam_dselfskip, "heldparent": fam_heldparent, "reops": fam_reops, "ovfend": fam_ovfend, "rootwatch": fam_rootwatch, "badarg": fam_badarg, "slowpair": fam_slowpair, "capsweep": fam_capsweep, "wlpark": fam_wlpark, "recerr": fam_recerr,
+    "parmoves": fam_parmoves, "multix": fam_multix, "closereuse": fam_closereuse, "recurse": fam_recurse, "cwd": fam_cwd, "readfault": fam_readfault, "dselfskip": fam_dselfskip, "heldparent": fam_heldparent, "reops": fam_reops, "ovfend": fam_ovfend, "rootwatch": fam_rootwatch, "badarg": fam_badarg, "slowpair": fam_slowpair, "capsweep": fam_capsweep, "wlpark": fam_wlpark, "recerr": fam_recerr,
     "kqdir": fam_kqdir, "kqsym": fam_kqsym, "kqburst": fam_kqburst, "kqcycle": fam_kqcycle, "kqfault": fam_kqfault, "kqdot": fam_kqdot, "kqredir": fam_kqredir, "kqblind": fam_kqblind, "kqseq": fam_kqseq, "kqkfault": fam_kqkfault, "kqnested": fam_kqnested,
 }
 
